@@ -93,7 +93,7 @@ FunctionLang::execute(
             const XalanDOMString&   langVal = theAttribute == 0 ?
                         s_emptyString : theAttribute->getNodeValue();
 
-            if (langVal.empty() == false)
+            if (theAttribute != 0)
             {
                 const GetCachedString   theGuard1(executionContext);
                 const GetCachedString   theGuard2(executionContext);
@@ -106,10 +106,12 @@ FunctionLang::execute(
                         langVal[valLen] == XalanUnicode::charHyphenMinus)
                     {
                         fMatch = true;
-
-                        break;
                     }
                 }
+
+                // The nearest xml:lang attribute decides, whether
+                // it matches or not...
+                break;
             }
         }
 
